@@ -26,7 +26,7 @@ NOT_DECIDED = [
 STR_NORAISE = {"rstrip", "lstrip", "strip", "startswith", "endswith", "isdigit", "isdecimal", "isascii", "isalpha", "lower", "upper", "replace", "split", "rsplit", "partition", "rpartition",
                "join", "format", "items", "keys", "values", "get", "find", "rfind", "count", "splitlines", "title", "casefold"}
 STR_RAISE = {"index": {"ValueError"}, "rindex": {"ValueError"}, "decode": {"UnicodeDecodeError"}, "encode": {"UnicodeEncodeError"}}
-CALLS = {"datetime.datetime.now": set(), "calendar.isleap": set(), "datetime.datetime.strptime": {"ValueError"}, "strptime": {"ValueError"}, "pathlib.PurePosixPath": set(), "len": set(),
+CALLS = {"datetime.datetime.now": set(), "datetime.timedelta": set(), "timedelta": set(), "calendar.isleap": set(), "datetime.datetime.strptime": {"ValueError"}, "strptime": {"ValueError"}, "pathlib.PurePosixPath": set(), "len": set(),
          "setlocale": set(), "isinstance": set(), "int": {"ValueError"}, "float": {"ValueError"}, "str": set(), "tuple": set(), "list": set(), "bool": set(), "repr": set(), "min": {"ValueError"},
          "max": {"ValueError"}, "range": set(), "enumerate": set(), "zip": set(), "sorted": set(), "reversed": set(), "any": set(), "all": set(), "dict": set(), "set": set()}
 
@@ -384,6 +384,141 @@ def rule_noswallow(ctx):
            "the dispatcher does not re-arm the command reader", construct="dispatcher:re-arm")
 
 
+# what the server's command reader can raise on hostile input, one line of reason each
+READER_RAISES = {
+    "UnicodeDecodeError": "bytes that are not valid in the server encoding (line.decode)",
+    "ValueError": "a line longer than the stream limit (StreamReader.readline)",
+    "LimitOverrunError": "the stream limit (StreamReader.readuntil under readline)",
+    "IncompleteReadError": "end of stream in the middle of a read",
+    "ConnectionResetError": "the peer resets the control connection",
+    "TimeoutError": "idle timeout of the control stream",
+}
+
+
+def rule_reader_errors(ctx):
+    p = ctx.p
+    ctx.rule("C19.READERR", "an error of the command reader ends the session: in the dispatcher's loop the only handlers around `task.result()` that carry on are for classes the "
+                            "reader cannot raise (undecodable bytes, an over-long line, a reset) - a swallowed reader error is never re-armed, the session goes deaf and keeps "
+                            "its table entry and slots for ever")
+    d, tr = p.dispatcher_try()
+    results = [c for c in ast.walk(tr) if isinstance(c, ast.Call) and is_method_call(c, "result") and not c.args]
+    if not results:
+        raise AnalysisError("anchor=dispatcher `task.result()` not found")
+    n = 0
+    for c in results:
+        q = p.parent.get(c)
+        child = c
+        while q is not None and q is not d:
+            if isinstance(q, ast.Try) and any(child is s_ for s_ in q.body) and q is not tr:
+                for h in q.handlers:
+                    names = handler_names(h) if h.type is not None else ["BaseException"]
+                    goes_on = any(out[0] != "raise" for ev, out in Cfg(lambda n_: [], p.issub).seq(h.body))
+                    rearms = any(isinstance(x, ast.Call) and is_self_call(x, {"parse_command"}) for s_ in h.body for x in ast.walk(s_))
+                    hit = sorted(r for r in READER_RAISES for nm in names if p.issub(r, nm))
+                    n += 1
+                    ctx.ob("C19.READERR", h, f"handler for {names} around `task.result()` does not take a reader error and carry on", not (goes_on and hit and not rearms),
+                           f"the dispatcher catches {names} around `task.result()` and carries on: that is also the command reader's result - {hit[0] if hit else ''} "
+                           f"({READER_RAISES.get(hit[0], '') if hit else ''}) is swallowed, no new read is started, the session never notices its peer again and never cleans up",
+                           construct=f"dispatcher:reader error {names} swallowed")
+            child, q = q, p.parent.get(q)
+    ctx.ob("C19.READERR", results[0], f"{len(results)} `task.result()` site(s) in the dispatcher loop, {n} handler(s) around them examined", True)
+
+
+def _regex_ambiguities(pattern):
+    """unbounded repeats whose body is, apart from optional parts, itself one unbounded repeat - `(\\d+,?)+`, `(a+)+`, `(a*)*`: n characters can be split between the two
+    loops in exponentially many ways, and the backtracking matcher tries them all when the rest of the pattern fails"""
+    try:
+        import re._parser as sp
+        import re._constants as sc
+    except ImportError:    # Python < 3.11
+        import sre_parse as sp
+        import sre_constants as sc
+    REP = (sc.MAX_REPEAT, sc.MIN_REPEAT) + ((sc.POSSESSIVE_REPEAT,) if hasattr(sc, "POSSESSIVE_REPEAT") else ())
+
+    def nullable(it):
+        op, av = it
+        if op in REP:
+            return av[0] == 0 or all(nullable(x) for x in av[2])
+        if op is sc.SUBPATTERN:
+            return all(nullable(x) for x in av[3])
+        if op is sc.BRANCH:
+            return any(all(nullable(x) for x in alt) for alt in av[1])
+        return op in (sc.AT, sc.ASSERT, sc.ASSERT_NOT)
+
+    def flat(seq):
+        for it in seq:
+            if it[0] is sc.SUBPATTERN:
+                yield from flat(it[1][3])
+            elif getattr(sc, "ATOMIC_GROUP", None) is not None and it[0] is sc.ATOMIC_GROUP:
+                yield it
+            else:
+                yield it
+
+    def unbounded(it):
+        return it[0] in (sc.MAX_REPEAT, sc.MIN_REPEAT) and it[1][1] == sc.MAXREPEAT
+
+    def ambiguous_body(seq):
+        items = list(flat(seq))
+        alts = [items]
+        if len(items) == 1 and items[0][0] is sc.BRANCH:
+            alts = [list(flat(a)) for a in items[0][1][1]]
+        for alt in alts:
+            nn = [x for x in alt if not nullable(x)]
+            if (len(nn) == 1 and unbounded(nn[0])) or (not nn and any(unbounded(x) for x in alt)):
+                return True
+        return False
+    out = []
+
+    def walk(seq):
+        for it in seq:
+            op, av = it
+            if op in REP:
+                if unbounded(it) and ambiguous_body(av[2]):
+                    out.append(it)
+                walk(av[2])
+            elif op is sc.SUBPATTERN:
+                walk(av[3])
+            elif op is sc.BRANCH:
+                for alt in av[1]:
+                    walk(alt)
+            elif op in (sc.ASSERT, sc.ASSERT_NOT):
+                walk(av[1])
+    walk(sp.parse(pattern))
+    return out
+
+
+RE_FUNCS = {"findall", "finditer", "match", "search", "fullmatch", "compile", "sub", "subn", "split"}
+
+
+def rule_regex(ctx):
+    p = ctx.p
+    ctx.rule("C19.REGEX", "'never hangs': every regular expression applied to peer text matches in time polynomial in the text - no unbounded repeat whose body is, apart from "
+                          "optional parts, itself an unbounded repeat (exponential backtracking on a long run that finally fails to match)")
+    n = 0
+    for mod in sorted(p.trees):
+        for c in ast.walk(p.trees[mod]):
+            if isinstance(c, ast.Call) and isinstance(c.func, ast.Attribute) and c.func.attr in RE_FUNCS and isinstance(c.func.value, ast.Name) and c.func.value.id == "re" and c.args:
+                fn = p.enclosing_function(c)
+                vals = const_values(p, c.args[0], fn)
+                if not vals or any(not isinstance(v, str) for v in vals):
+                    raise Inconclusive(f"C19.REGEX: pattern of `{src(c)[:50]}` in {p.fn_of(c)} is not a constant")
+                for v in vals:
+                    n += 1
+                    try:
+                        amb = _regex_ambiguities(v)
+                    except Exception as e:     # re.error: the pattern does not compile
+                        ctx.fail("C19.REGEX", c, f"pattern {v!r} in {p.fn_of(c)} does not parse: {e}", construct=f"regex:{p.fn_of(c)}:invalid")
+                        continue
+                    ctx.ob("C19.REGEX", c, f"{p.fn_of(c)}: pattern {v!r} has no nested unbounded repeat", not amb,
+                           f"{p.fn_of(c)}: pattern {v!r} repeats without bound a group that is itself (apart from optional parts) an unbounded repeat: on a long run of matching "
+                           "characters that does not end the way the pattern wants, the matcher tries exponentially many splits - a hostile reply hangs the client",
+                           construct=f"regex:{p.fn_of(c)}:nested unbounded repeat")
+    # the rule may legitimately match nothing (parsers rewritten without regular expressions): a built-in positive and negative example keep it from passing vacuously
+    if not _regex_ambiguities(r"\(((?:\d+,?)+)\)") or _regex_ambiguities(r"(\d+,)*\d+"):
+        raise AnalysisError("C19.REGEX self-test: the nested-repeat detector no longer tells `((?:\\d+,?)+)` from `(\\d+,)*\\d+`")
+    ctx.ob("C19.REGEX", p.trees["client.py"], f"{n} regular expression(s) examined; detector self-test passed", True)
+
+
 def rule_release(ctx):
     """'...and releases that session's resources': the unconditional cleanup of C10/C12 is a clause of C19 as well"""
     from .c10 import rule_finally
@@ -416,4 +551,4 @@ def rule_defined(ctx):
         ctx.floor_errors.append(f"rule=C19.DEFINED: {n} functions of client.py/common.py analysed (floor 90)")
 
 
-RULES = [rule_funnel, rule_nodrop, rule_srv, rule_eof, rule_dot, rule_release, rule_noswallow, rule_borrowed_r4, rule_defined]
+RULES = [rule_funnel, rule_nodrop, rule_srv, rule_eof, rule_dot, rule_release, rule_noswallow, rule_reader_errors, rule_regex, rule_borrowed_r4, rule_defined]
